@@ -1,38 +1,48 @@
 #!/venv/bin/python
-"""Apply every seeded change under /verif/seeded to /repo in turn, run all READY checks, record which fire.
-   tools/check_seeds.py [name-substring]"""
-import json, os, subprocess, sys
-def sh(cmd, cwd=None, env=None):
-  p = subprocess.run(cmd, shell=True, cwd=cwd, env=env, capture_output=True, text=True)
-  return p.returncode, p.stdout + p.stderr
+"""Apply every seeded change under /verif/seeded to a scratch copy of the analysed sources
+(VERIF_REPO; /repo itself is not touched, so this is safe to run concurrently), run all READY
+checks, record which fire.
+   tools/check_seeds.py [name-substring ...] [--only-own]     (--only-own: run just the seed's own property)"""
+import json, os, shutil, subprocess, sys, tempfile
+from concurrent.futures import ThreadPoolExecutor
+sys.path.insert(0, "/verif")
+from sa.selftest import make_copy
 ready = open("/verif/sa/rules/READY").read().split()
-rc, st = sh("git -C /repo status --porcelain")
-assert not st.strip(), "/repo not clean"
-env = dict(os.environ, VERIF_NO_EVIDENCE="1")
-sub = sys.argv[1] if len(sys.argv) > 1 else ""
-rows = []
-for name in sorted(os.listdir("/verif/seeded")):
+args = [a for a in sys.argv[1:] if not a.startswith("--")]
+only_own = "--only-own" in sys.argv
+names = [n for n in sorted(os.listdir("/verif/seeded"))
+         if os.path.exists(os.path.join("/verif/seeded", n, "patch.diff")) and (not args or any(a in n for a in args))]
+
+def one(name):
   d = os.path.join("/verif/seeded", name)
-  patch = os.path.join(d, "patch.diff")
-  if sub not in name or not os.path.exists(patch):
-    continue
-  rc, out = sh("git -C /repo apply %s" % patch)
-  if rc != 0:
-    rows.append((name, "PATCH-DOES-NOT-APPLY", {})); continue
-  fired = {}
+  tmp = tempfile.mkdtemp(prefix="vsd_")
   try:
-    for p in ready:
-      rc, out = sh("./vcheck %s" % p, cwd="/verif", env=env)
-      if rc == 1:
-        fired[p] = sorted({l.split()[1] for l in out.splitlines() if l.startswith("FINDING")})
-      elif rc != 0:
-        fired[p] = ["ANALYSIS-ERROR"]
+    make_copy(tmp)
+    p = subprocess.run(["git", "apply", "--unsafe-paths", "-p1", "--include=sandbox/*", "--include=app/*",
+                        os.path.join(d, "patch.diff")], cwd=tmp, capture_output=True, text=True)
+    if p.returncode != 0:
+      return (name, "PATCH-DOES-NOT-APPLY", {"err": [p.stderr.strip()[:200]]})
+    env = dict(os.environ, VERIF_REPO=tmp, VERIF_NO_EVIDENCE="1")
+    fired = {}
+    for prop in ([name[:3]] if only_own else ready):
+      q = subprocess.run([sys.executable, "-B", "-m", "sa.main", prop], cwd="/verif", env=env,
+                         capture_output=True, text=True)
+      if q.returncode == 1:
+        fired[prop] = sorted({l.split()[1] for l in q.stdout.splitlines() if l.startswith("FINDING")})
+      elif q.returncode != 0:
+        fired[prop] = ["ANALYSIS-ERROR"]
+    if not only_own:
+      mp = os.path.join(d, "meta.json")
+      meta = json.load(open(mp)) if os.path.exists(mp) else {}
+      meta["detected_by"] = fired
+      json.dump(meta, open(mp, "w"), indent=1)
+    st = "DETECTED" if any(v != ["ANALYSIS-ERROR"] for v in fired.values()) else ("ERROR-ONLY" if fired else "MISSED")
+    return (name, st, fired)
   finally:
-    sh("git -C /repo checkout -- .")
-  mp = os.path.join(d, "meta.json")
-  meta = json.load(open(mp)) if os.path.exists(mp) else {}
-  meta["detected_by"] = fired
-  json.dump(meta, open(mp, "w"), indent=1)
-  rows.append((name, "DETECTED" if any(v != ["ANALYSIS-ERROR"] for v in fired.values()) else ("ERROR-ONLY" if fired else "MISSED"), fired))
+    shutil.rmtree(tmp, ignore_errors=True)
+
+with ThreadPoolExecutor(max_workers=8) as ex:
+  rows = list(ex.map(one, names))
 for r in rows:
   print("%-55s %-10s %s" % (r[0], r[1], "; ".join("%s:%s" % (k, ",".join(v)) for k, v in r[2].items())))
+print("seeds: %d, detected %d" % (len(rows), sum(1 for r in rows if r[1] == "DETECTED")))
